@@ -7,7 +7,7 @@ From Coq Require Import String.
 From Boltons Require Import Lib.Prelude Lib.C06_Text Spec.C06_Spec Model.C06_Model Gen.C06_Gen Gen.C06_Src
   Proofs.C06_SrcEq
   Proofs.C06_Codec Proofs.C06_Utf8 Proofs.C06_Quote Proofs.C06_Lists Proofs.C06_Round Proofs.C06_Legal
-  Proofs.C06_Guard Proofs.C06_Refine Proofs.C06_Ports Proofs.C06_NoAuth Proofs.C06_NoAuthMin Proofs.C06_Shape Proofs.C06_Parsed Proofs.C06_QuoteMin Proofs.C06_Parts Proofs.C06_RoundMin Proofs.C06_Total Proofs.C06_Reads Proofs.C06_ReadsPort
+  Proofs.C06_Guard Proofs.C06_Refine Proofs.C06_Ports Proofs.C06_NoAuth Proofs.C06_NoAuthMin Proofs.C06_Shape Proofs.C06_Parsed Proofs.C06_QuoteMin Proofs.C06_Parts Proofs.C06_RoundMin Proofs.C06_Total Proofs.C06_Reads Proofs.C06_ReadsPort Proofs.C06_Links
   Proofs.C06_GenOk.
 Open Scope N_scope.
 
@@ -559,6 +559,20 @@ Theorem C06_links_total : forall T O, oracle_answers O ->
   forall with_text ds schemes t spans, exists items, find_all_links T O with_text ds schemes t spans = MOk items.
 Proof. exact find_all_links_total. Qed.
 Print Assumptions C06_links_total.
+
+(* find_all_links(with_text=True) returns only URL and text pieces that, in order, make up the input again, and
+   find_all_links(with_text=False) returns exactly the same links (Spec.links_ok, the clause evaluated on the
+   implementation in every links case) - for the model of the match handling, every text, all arguments, all
+   oracles, whatever the parser answers, for any matches that come in order, do not overlap, are non-empty and lie
+   inside the text (spans_okb: checked on the implementation's matches in every case).  [f] is any rendering of a
+   URL object (the Spec does not look at it). *)
+Theorem C06_links_tile : forall T O f ds schemes t spans w,
+  spans_okb (length t) 0 spans = true ->
+  find_all_links T O true ds schemes t spans = MOk w ->
+  exists p, find_all_links T O false ds schemes t spans = MOk p /\
+            links_ok t (Ok (shape f p)) (Ok (shape f w)) = true.
+Proof. intros T O f ds schemes t spans w S. apply links_ok_model. apply spans_okb_ok. exact S. Qed.
+Print Assumptions C06_links_tile.
 
 (* NOT YET PROVED (full statements kept visible; Coq checks them on the implementation's
    observations for every generated case through parse_ok):
